@@ -20,7 +20,7 @@ LEVEL = "exploration"
 
 FEATURES = [
     # Leaf level
-    "alias-real", "leaf-int", "alias-int", "alias-bool", "leaf-array", "leaf-array-for",
+    "alias-real", "alias-chain", "leaf-int", "alias-int", "alias-bool", "leaf-array", "leaf-array-for",
     "leaf-constant", "leaf-discrete", "leaf-input", "leaf-output", "leaf-ieq",
     "leaf-ext1", "leaf-ext2", "leaf-ext3", "leaf-two-ext", "leaf-sub", "leaf-io-alias",
     # Mid level
@@ -32,7 +32,7 @@ FEATURES = [
     "pkg", "pkg-split", "depth4",
 ]  # fmt: skip
 
-REQUIRES = {"mid-inner-ext": {"mid-inner"}, "mid-inner-two": {"mid-inner"}, "mid-deepref": {"leaf-sub"}, "leaf-ext2": {"leaf-ext1"}, "leaf-ext3": {"leaf-ext2", "leaf-ext1"}, "pkg-split": {"pkg"}, "alias-int": set(), "leaf-array-for": set()}
+REQUIRES = {"alias-chain": {"alias-real"}, "mid-inner-ext": {"mid-inner"}, "mid-inner-two": {"mid-inner"}, "mid-deepref": {"leaf-sub"}, "leaf-ext2": {"leaf-ext1"}, "leaf-ext3": {"leaf-ext2", "leaf-ext1"}, "pkg-split": {"pkg"}, "alias-int": set(), "leaf-array-for": set()}
 
 
 def der(x):
@@ -47,6 +47,9 @@ def build(fs):
     if has("alias-real"):
         low.append(Cls("TR", kind="type", base="Real"))
         xtype = "TR"
+        if has("alias-chain"):
+            low.append(Cls("TR2", kind="type", base="TR"))
+            xtype = "TR2"
     if has("alias-int"):
         low.append(Cls("TI", kind="type", base="Integer"))
     if has("alias-bool"):
